@@ -28,9 +28,13 @@ def add_arguments(parser):
 
 
 def unphase_header(header):
-    for hr in header.records:
-        if hr.key == "phasing":
-            hr.remove()
+    # A header can have more than one "phasing" line; each pass over the records removes one
+    while True:
+        for hr in header.records:
+            if hr.key == "phasing":
+                hr.remove()
+                break
+        else:
             break
 
     for tag in TAGS_TO_REMOVE:
